@@ -93,6 +93,8 @@ func scenario(p params, bounds []int) *vexp.Scenario {
 						s := text(m)
 						targetSaw = append(targetSaw, s)
 						switch {
+						case strings.HasPrefix(s, "ask-empty"):
+							ctx.Reply(&vcodec.EmptyMsg{}) // a registered message without fields: an empty body on the wire
 						case strings.HasPrefix(s, "ask"):
 							ctx.Reply(payload("re:" + s))
 						case strings.HasPrefix(s, "fail"):
@@ -109,7 +111,7 @@ func scenario(p params, bounds []int) *vexp.Scenario {
 			// forwarder for PipeTo: local to the caller, or on the other system
 			fw := wa
 			faddr := addrA
-			if p.op == "pipe-remote-forwarder" {
+			if p.op == "pipe-remote-forwarder" || p.op == "pipe-empty-remote-forwarder" {
 				fw, faddr = wb, addrB
 			}
 			fw.SpawnRoot(&vsys.Script{Name: "fwd", OnOther: func(a *vsys.Act, ctx vivid.ActorContext, m any) {
@@ -146,6 +148,10 @@ func scenario(p params, bounds []int) *vexp.Scenario {
 								callerSaw = append(callerSaw, "reply:"+text(v))
 							}
 						})
+					case "kill-long-reason":
+						ctx.Kill(target, false, strings.Repeat("r", 300), "second part of the reason")
+					case "pipe-empty", "pipe-empty-remote-forwarder":
+						ctx.PipeTo(target, payload("ask-empty"), vivid.ActorRefs{fwdRef})
 					case "kill":
 						ctx.Kill(target, false, "c15")
 					case "poison":
@@ -283,7 +289,13 @@ func scenario(p params, bounds []int) *vexp.Scenario {
 				if !asked || strings.Join(callerSaw, ",") != "reply:re:ask-1" {
 					x.Fail("ask-gets-reply", "Ask to a %s target completed=%v with %v (target saw %v)", where, asked, callerSaw, targetSaw)
 				}
-			case "kill", "poison":
+			case "pipe-empty", "pipe-empty-remote-forwarder":
+				do(p.op)
+				settle(time.Second)
+				if strings.Join(fwdSaw, ",") != "*vcodec.EmptyMsg/" {
+					x.Fail("pipe-forwards-result", "PipeTo a %s target that answers with a field-less registered message, forwarder on %s: it saw %v, expected the *vcodec.EmptyMsg", where, faddr, fwdSaw)
+				}
+			case "kill", "poison", "kill-long-reason":
 				do(p.op)
 				settle(time.Second)
 				if killedEvents() != 1 {
@@ -373,6 +385,11 @@ func build(tier string) []*vexp.Scenario {
 			for _, codec := range []bool{false, true} {
 				out = append(out, scenario(params{op: op, remote: remote, codec: codec}, bounds))
 			}
+		}
+	}
+	for _, op := range []string{"kill-long-reason", "pipe-empty", "pipe-empty-remote-forwarder"} {
+		for _, remote := range []bool{false, true} {
+			out = append(out, scenario(params{op: op, remote: remote}, []int{0}))
 		}
 	}
 	for _, op := range []string{"watch2", "unwatch2a", "unwatch2b"} {
